@@ -61,6 +61,10 @@ def main():
                 r = getattr(__import__(mod_, fromlist=[fn]), fn)(it)
             else:
                 r = corpus.realise(it["case"], it["seed"])
+            if "expr" in r:
+                progs = s5.programs_of_expression(r["expr"], r["points"], it["scalar"], label=it.get("label", ""))
+                ready.append((idx, it, r, progs))
+                continue
             progs = s5.programs_of_form(r["form"], 0, it["scalar"], exact_ok=r.get("exact_ok", True),
                                         diagonal=it.get("options", {}).get("part") == "diagonal",
                                         label=it.get("label", ""))
@@ -75,6 +79,15 @@ def main():
     groups = {}
     for rec in ready:
         it = rec[1]
+        if "expr" in rec[2]:
+            try:
+                mod = s5.ExprModule([(rec[2]["expr"], rec[2]["points"])], it["scalar"], it.get("options", {}))
+                rec[2]["descriptor"] = mod.descriptor(0)
+                _run(orc, meas, skipped, rec[0], it, rec[2], rec[3], mod, 0)
+            except Exception as e:  # noqa: BLE001
+                skipped.append({"item": rec[0], "why": f"ffcx failed: {type(e).__name__}: {str(e)[:300]}",
+                                "ffcx_error": True, "tb": traceback.format_exc()[-2500:]})
+            continue
         groups.setdefault((it["scalar"], json.dumps(it.get("options", {}), sort_keys=True)), []).append(rec)
     for (scalar, optj), recs in groups.items():
         opts = json.loads(optj)
@@ -116,7 +129,17 @@ def _run(orc, meas, skipped, idx, it, r, progs, mod, k):
             skipped.append({"item": idx, "why": f"no kernel listed under ({prog.itype}, {prog.subdomain_id})", "missing_kernel": True})
             continue
         pi = orc.add_prog(prog)
-        confs = entity_confs(prog, it, rnd)
+        if prog.itype == "expression":
+            if prog.etype == "cell":
+                confs = [([0], [0])]
+            else:
+                ne = prog.nentities()
+                ents = list(range(ne)) if not it.get("max_entities") else rnd.sample(range(ne), min(ne, it["max_entities"]))
+                confs = [([e], [p]) for e in ents
+                         for p in rnd.sample(range(s5.nperms(s5.facet_cellname(prog.cell, e))),
+                                             min(it.get("nperm", 2), s5.nperms(s5.facet_cellname(prog.cell, e))))]
+        else:
+            confs = entity_confs(prog, it, rnd)
         plan = []                                   # (ent, perm, xs or None)
         if confs is not None:
             plan = [(e, p, None) for e, p in confs for _ in range(it.get("ninputs", 3))]
@@ -144,7 +167,8 @@ def _run(orc, meas, skipped, idx, it, r, progs, mod, k):
             else:
                 xs = []
                 for s in range(prog.nsides):
-                    fac = ent[s] if prog.itype in ("exterior_facet", "interior_facet") else None
+                    fac = ent[s] if (prog.itype in ("exterior_facet", "interior_facet")
+                                     or (prog.itype == "expression" and prog.etype == "facet")) else None
                     xs.append(s5.make_geometry(prog, gkind, rnd, facet=fac))
             lo, hi = it.get("data_range", (-3, 3))
             w, c = s5.random_data(prog, rnd, cx, lo, hi)
@@ -167,7 +191,20 @@ def _run(orc, meas, skipped, idx, it, r, progs, mod, k):
             cid = orc.case(ci, xs, w, c)
             meas.append({"case": cid, "item": idx, "A": [[float(z.real), float(z.imag)] for z in A.astype(complex)],
                          "scalar": scalar, "nops": nops_of(prog), "itype": prog.itype, "sid": prog.subdomain_id,
-                         "ent": ent, "perm": perm, "nkernels": len(use)})
+                         "ent": ent, "perm": perm, "nkernels": len(use), "descriptor": r.get("descriptor"),
+                         "expect_descriptor": _expect_descr(prog, r) if prog.itype == "expression" else None})
+
+
+def _expect_descr(prog, r):
+    import ufl
+    e = r["expr"]
+    oc = ufl.algorithms.extract_coefficients(e)
+    P = np.asarray(r["points"])
+    return {"num_points": int(P.shape[0]), "entity_dimension": int(P.shape[1]),
+            "points": [float(v) for v in P.reshape(-1)], "value_shape": [int(v) for v in prog.value_shape],
+            "num_components": len(prog.value_shape), "rank": prog.rank,
+            "num_coefficients": len(prog.coefs), "num_constants": len(prog.const_sizes),
+            "original_coefficient_positions": list(range(len(oc)))}
 
 
 if __name__ == "__main__":
